@@ -1,8 +1,6 @@
 package colvet
 
 import (
-	"fmt"
-	"os"
 	"go/token"
 	"go/types"
 	"sort"
@@ -567,9 +565,6 @@ func (a *ArmLoop) May(op int, kind string) []Effect {
 		}
 		for _, e := range es {
 			if e.Kind == kind && (!e.Inlined || e.MayOps.has(op)) {
-				if os.Getenv("COLVET_DEBUG_ARMS") != "" {
-					fmt.Fprintf(os.Stderr, "MAY %s op=%d kind=%s inlined=%v mayops=%b inner=%v\n", fnName(a.Fn), op, kind, e.Inlined, e.MayOps, e.Inner)
-				}
 				out = append(out, e)
 			}
 		}
